@@ -57,17 +57,25 @@ Definition check_case (c : case) : list N :=
          | _ => []
          end
       (* the real firewall: loads iff the text is accepted and AddRule accepts every rule *)
-      ++ flag 1 (Bool.eqb (is_ok (load_config pp cf tbl empty_table)) (fw_class =? 0))
-      ++ flag 2 (Bool.eqb (is_ok (load_config pp cf tbl empty_table)) (fw_class =? 0))
+      ++ (let load_ok := match m with
+                         | ROk rs => if existsb wide rs then forallb rule_valid rs   (* = is_ok load_config: C22_exact, C22_loads_when_valid *)
+                                     else is_ok (load_config pp cf tbl empty_table)
+                         | _ => is_ok (load_config pp cf tbl empty_table)
+                         end in
+          flag 1 (Bool.eqb load_ok (fw_class =? 0)) ++ flag 2 (Bool.eqb load_ok (fw_class =? 0)))
       (* and then admits exactly the packets the text describes *)
       ++ match m with
          | ROk rs =>
              if fw_class =? 0 then
                let rules := map (fun r => (inbound, r, true)) rs in
-               match new_firewall cf (dir_rules rules true) (dir_rules rules false) with
-               | None => [1]
-               | Some fw => run_probes true cf rules fw pl [] probes
-               end
+               let inr := dir_rules rules true in
+               let outr := dir_rules rules false in
+               if existsb wide rs then
+                 (if forallb rule_valid rs then run_probes true cf rules (rules_matcher cf inr outr) pl [] probes else [1])
+               else match new_firewall cf inr outr with
+                    | None => [1]
+                    | Some fw => run_probes true cf rules (table_matcher fw) pl [] probes
+                    end
              else []
          | _ => []
          end
